@@ -90,6 +90,10 @@ int finished_thread_owning(const void *p);
 void post(const void *k);
 void wait(const void *k);
 
+// conflict discovery (sequential mode): offsets into the library's static storage that were written or touched atomically
+void record_static_accesses(bool on);
+std::vector<uint64_t> take_recorded();
+
 // sequential (unscheduled) mode for reference runs: callbacks count steps only
 void begin_sequential();
 uint64_t end_sequential();                          // returns number of would-be scheduling points
